@@ -60,7 +60,7 @@ def scenarios(tier, seed):
         out.append(scenario("%s-%s-%s-%dp%s" % (b, a, v, nports, "-noref" if norefresh else ""), b, ports, seed * 7 + i, tech=dict(tREFI=2000),
                             ctrl=dict(cmd_buffer_depth=[8, 4, 2][i % 3], with_refresh=not norefresh), max_cycles=600000, drain=60000, sweep_max=40))
     from . import c03, c01
-    return out + c03.mux_lockstep_scenarios(tier, seed)[:2] + c01.xbar_lockstep_scenarios(tier, seed)[:2]
+    return out + c03.mux_lockstep_scenarios(tier, seed)[:2] + c03.muxr_lockstep_scenarios(tier, seed)[:2] + c01.xbar_lockstep_scenarios(tier, seed)[:2]
 
 
 def models(tier, seed):
@@ -68,11 +68,13 @@ def models(tier, seed):
             dict(module="D_Crossbar", cfg="MC_Crossbar_d6.cfg", label="known finding D6 on the model: one master can be starved by another streaming to the same bank",
                  workers=2, timeout=1800, expect_violation=True),
             dict(module="MC_Multiplexer", cfg="MC_Multiplexer_live.cfg", label="multiplexer: pending reads/writes are served despite a continuous opposite stream (liveness)", workers=2, timeout=1800),
-            dict(module="MC_Multiplexer", cfg="MC_Multiplexer_neg_starve.cfg", label="negative control: anti-starvation time-outs disabled", workers=2, timeout=1800, expect_violation=True)]
+            dict(module="MC_Multiplexer", cfg="MC_Multiplexer_neg_starve.cfg", label="negative control: anti-starvation time-outs disabled", workers=2, timeout=1800, expect_violation=True)] + (
+        [dict(module="MC_MuxRef", cfg="MC_MuxRef_live.cfg", label="multiplexer+refresher+bank machines: requests are accepted and refresh served (liveness)", workers=3, timeout=2400)]
+        if tier == "thorough" else [])
 
 
 def execute(sc, workdir):
-    if sc.get("kind") == "lockstep-mux":
+    if sc.get("kind") in ("lockstep-mux", "lockstep-muxr"):
         from . import c03
         return c03._lockstep_mux(sc, workdir)
     if sc.get("kind") == "b3-mux":
